@@ -8,7 +8,7 @@ on the tableau machine and checks state, cost, depth, class, vocabulary, indices
 import os
 import re
 
-from .. import core, impl, tlc
+from .. import core, impl, tlc, workers
 
 TOKEN = re.compile(r"^(h|s|sdg|cx|cz|swap)(\d+)(?:,(\d+))?$")
 CLAUSES = {"state", "cost", "depth", "class", "parse", "vocab", "unknown-gate", "uncoupled", "count"}
@@ -56,17 +56,24 @@ def build_traces(L):
             filed = -1
             try:
                 info = L.circuit_lookup.stabilizer_circuit_lookup(n, conn, i)
+                qc1 = info.parse_circuit()
+                g1 = impl.gates_of(qc1)
+                # the reader is an ordinary caller: it edits the circuit it was given, then looks the entry up and parses it once more; what is judged is
+                # the SECOND answer (on a correct loader it equals the first; `again` records whether it did)
+                workers.hostile(qc1)
+                info = L.circuit_lookup.stabilizer_circuit_lookup(n, conn, i)
                 g = impl.gates_of(info.parse_circuit())
+                again = g == g1
                 graph, cost, depth = int(info.graph_id), int(info.cost), int(info.depth)
                 try:    # the class id the library's classifier files the entry's graph state under
                     filed = int(L.lc_classes.determine_lc_class(L.stabilizer.Stabilizer(L.graph.Graph.decompress(n, graph))).id())
                 except Exception:
                     filed = -2
             except Exception as e:  # the loader cannot even read the line
-                g, graph, cost, depth = [["!" + type(e).__name__, -1, -1]], 0, -1, -1
+                g, graph, cost, depth, again = [["!" + type(e).__name__, -1, -1]], 0, -1, -1, True
             traces.append({"kind": "table", "n": n, "conn": conn if supported else "", "gates": g,
                            "gates2": independent_parse(text), "graph": graph, "cost": cost, "depth": depth,
-                           "cls": i if i < K else -1, "nlines": len(raw), "filed": filed})
+                           "cls": i if i < K else -1, "nlines": len(raw), "filed": filed, "again": 1 if again else 0})
             meta.append((f"stabilizer{n}-{conn}#{i}", line))
     missing = [c for c in impl.SUPPORTED if c not in seen_cfg]
     return traces, meta, missing
@@ -85,6 +92,8 @@ def run(tier):
         nontrivial = any(g[2] >= 0 for g in tr["gates"])
         ck.count(key, nontrivial)
         bad = clauses & CLAUSES
+        if not tr.get("again", 1):
+            bad = bad | {"second-parse-differs"}
         if bad:
             ck.violation(key, f"table line {key} fails {sorted(bad)}: {line[:120]}", {"trace": tr, "clauses": sorted(bad), "line": line})
         else:
